@@ -19,8 +19,7 @@ tvars == <<l, bad, drift, excerr>>
 \* "bad": a value was demanded and something else came back (C18);
 \* "excerr": an in-band error was demanded and an exception escaped (C05);
 \* "drift": a value came back where the model demands an in-band error
-Judge(e) ==
-  LET x == ExprOutcome(e.toks) IN
+Judge(e, x) ==
   IF e.obs.kind = "exc" THEN (IF x.kind = "exc" THEN "ok" ELSE IF x.kind = "err" THEN "excerr" ELSE "bad")
   ELSE IF x.kind = "exc" THEN "drift"
   ELSE IF x.kind = "val" THEN
@@ -35,8 +34,9 @@ Judge(e) ==
 TInit == l = 1 /\ bad = <<>> /\ drift = <<>> /\ excerr = <<>>
 TNext ==
   /\ l <= Len(Events)
-  /\ LET j == Judge(Events[l])
-         rec == [i |-> l, expected |-> Proj(ExprOutcome(Events[l].toks))] IN
+  /\ LET x == ExprOutcome(Events[l].toks)      \* the model's evaluation of the recorded tokens
+         j == Judge(Events[l], x)
+         rec == [i |-> l, expected |-> Proj(x)] IN
      /\ bad' = IF j = "bad" THEN Append(bad, rec) ELSE bad
      /\ drift' = IF j = "drift" THEN Append(drift, rec) ELSE drift
      /\ excerr' = IF j = "excerr" THEN Append(excerr, rec) ELSE excerr
